@@ -43,7 +43,7 @@ def main():
     sh("git -C %s worktree remove --force %s" % (REPO, wt))
     r = sh("git -C %s worktree add -q --detach %s HEAD" % (REPO, wt))
     meta = {"id": sid, "property": prop, "source": "sub-agent given only the property text and a scratch worktree",
-            "needs": open(note).read() if os.path.exists(note) else "", "ran": []}
+            "what_it_needs_to_manifest": open(note).read() if os.path.exists(note) else "", "ran": []}
     try:
         r = sh("git -C %s apply %s" % (wt, patch))
         if r.returncode:
